@@ -32,7 +32,12 @@ RULE = (
     "and/or 1..k iterations before it); every 'twins' case derives the twins zip, dir, clone, forced clone fallback and raw-data-free reload from the same "
     "split state; 'history' cases checkpoint one run periodically: the same zip path and the same directory path (reused by all cases of a worker) are overwritten with "
     "mode='o' at three successive split points, each followed by from_file (and clone() of the reloaded object), judged against the state at that split and continued "
-    "against the uninterrupted reference. non-trivial = k >= 1, m >= 2 and (stateful optimizer or a scheduler that changed the learning rate); distinct = (optimizer, scheduler, k, "
+    "against the uninterrupted reference. In every non-benign case a random stream of its own adds, per optimizer with probability 1/2, non-default hyper-parameters (sgd: weight_decay, "
+    "momentum value, nesterov, dampening; adam/adamw: betas, eps, weight_decay, amsgrad) and, per cyclic scheduler with probability 0.6, the package option \"momentum\": True "
+    "(CyclicLR cycle_momentum: beta1 / momentum become a function of the iteration, so a checkpoint inside a cycle holds param-group entries that differ from the optimizer's "
+    "constructor defaults); 12 / 96 dedicated cases force that option on the object scheduler for each optimizer type with split points 1..5 inside the first cycles. Besides the "
+    "continuation oracle, every numerics-defining param-group entry (lr, betas, momentum, dampening, weight_decay, eps, nesterov, amsgrad, maximize, initial_lr, base/max_momentum) of "
+    "original-after-save / reloaded / cloned is compared with the state at the split and, after the continuation, with the reference (which is never saved, copied or moved). non-trivial = k >= 1, m >= 2 and (stateful optimizer or a scheduler that changed the learning rate); distinct = (optimizer, scheduler, k, "
     "continuation style, dataset optimizer)"
 )
 ASSUMPTIONS = [
@@ -47,11 +52,14 @@ ASSUMPTIONS = [
     "state equality after reload is judged at 1e-6 relative (measured 0)",
     "the raw-data-free save is judged for state equality always (object/probe/detector constraints; dataset constraints live in the dataset that is not saved) "
     "and for continuation only when the dataset model has no optimizer (its Adam state lives in the skipped dataset)",
+    "param-group entries are read through the public `optimizers` mapping; only entries that define the next optimizer / scheduler step are judged (exact for pickled values, 1e-9 relative), "
+    "implementation flags (foreach, fused, capturable, differentiable) are recorded only; with free-running generators the entries are judged at the split only",
+    "the uninterrupted reference performs no save / clone / .to() / device= argument between its iterations (reconstruct is called with device=None), so its optimizers are never re-bound",
     "single-threaded torch on CPU, integer seeds passed to every model; reference and original are separate builds from the same seed (C09 judges that determinism)",
 ]
 BUDGET = {"quick": {"soft_s": 300, "workers": 14}, "thorough": {"soft_s": 1200, "workers": 14}}
 MIN_EVALUATIONS = {"quick": 30, "thorough": 300}
-REQUIRED_COUNTERS = ["eval:twin_shares_state", "eval:obj_differs", "eval:probe_differs", "eval:iter_losses_differ", "eval:iter_lrs_differ", "eval:constraints_differ", "eval:num_iters_differs"]
+REQUIRED_COUNTERS = ["eval:param_group_differs", "eval:twin_shares_state", "eval:obj_differs", "eval:probe_differs", "eval:iter_losses_differ", "eval:iter_lrs_differ", "eval:constraints_differ", "eval:num_iters_differs"]
 EXHAUSTIVE = {"quick": False, "thorough": False}
 
 OPTIMIZERS = ["sgd", "sgd_momentum", "adam", "adamw"]
@@ -76,6 +84,13 @@ def plan(tier, seed):
                       "errors": ["none", "none", "at_split", "before_split", "before_split", "both"][int(rng.integers(6))], "benign": i % 6 == 5, "i": i})
     hist = [{"kind": "history", "opt": OPTIMIZERS[(i + 1) % 4], "sched": SCHEDULERS[(i // 2) % 5], "k": int(rng.integers(0, 4)), "style": ["plain", "plain", "new_constraints", "new_scheduler"][int(rng.integers(4))], "i": i}
             for i in range(nh)]
+    # dedicated class: param-group entries other than lr that change over time (cyclic scheduler with the package option "momentum": True) and non-default
+    # optimizer hyper-parameters, split points inside the first cycles (see _widen_hyper)
+    nhp = 12 if tier == "quick" else 96
+    hp = []
+    for j in range(nhp):
+        hp.append({"kind": "twins", "opt": OPTIMIZERS[j % 4], "sched": "cyclic", "k": int(rng.choice([1, 2, 2, 3, 3, 4, 5])), "style": ["plain", "two_calls", "new_scheduler", "plain", "new_constraints"][int(rng.integers(5))],
+                      "sync": True, "order": ["twins_first", "original_first"][int(rng.integers(2))], "errors": "none", "benign": False, "hp": True, "i": 1})
     # interleave (one history case after every third twin case) so that every worker sees both kinds and the evidence samples show both
     out = []
     step = max(1, n // max(1, nh))
@@ -83,7 +98,7 @@ def plan(tier, seed):
         out.append(sp)
         if i % step == 1 and hist:
             out.append(hist.pop(0))
-    return out + hist
+    return out + hist + hp  # (appended: the case indices, hence the random draws, of the older cases stay what they were)
 
 
 class _Shim:
@@ -173,6 +188,74 @@ def _sched_params(rng, name, keys, k):
     return sp
 
 
+# param-group entries that define the numerics of the next optimizer / scheduler step (implementation flags such as foreach / fused / capturable are only recorded)
+HYPER_KEYS = ("lr", "betas", "momentum", "dampening", "weight_decay", "eps", "nesterov", "amsgrad", "maximize", "decoupled_weight_decay", "initial_lr", "base_momentum", "max_momentum")
+
+
+def _widen_sched(hrng, s, p):
+    """the package's only scheduler option that makes a param-group entry other than lr a function of time: cyclic + "momentum": True (CyclicLR cycle_momentum:
+    beta1 of adam/adamw, momentum of sgd move between 0.8 and 0.9 against the learning rate)"""
+    if isinstance(s, dict) and s.get("type") == "cyclic" and hrng.random() < p:
+        s["momentum"] = True
+        return True
+    return False
+
+
+def _widen_hyper(hrng, op, sp, force=False):
+    """in place, from a random stream of its own (the older draws of a case stay what they were): non-default hyper-parameters for every optimizer type and
+    momentum cycling for cyclic schedulers.  Returns (number of optimizers with non-default entries, number of momentum-cycling schedulers)"""
+    nd = 0
+    for key, o in op.items():
+        if hrng.random() >= (0.75 if force else 0.5):
+            continue
+        nd += 1
+        t = o["type"]
+        picks = hrng.random(4) < 0.5
+        if not picks.any():
+            picks[int(hrng.integers(4))] = True
+        if t == "sgd":
+            if picks[0] or picks[3]:
+                o["weight_decay"] = float(10 ** hrng.uniform(-4, -2))
+            if "momentum" in o:
+                if picks[1]:
+                    o["nesterov"] = True
+                elif picks[2]:
+                    o["dampening"] = float(hrng.uniform(0.05, 0.3))
+                if picks[3]:
+                    o["momentum"] = float(hrng.choice([0.5, 0.7, 0.95]))
+        else:
+            if picks[0]:
+                o["betas"] = (float(hrng.uniform(0.6, 0.95)), float(hrng.uniform(0.9, 0.9995)))
+            if picks[1]:
+                o["eps"] = float(hrng.choice([1e-10, 1e-6, 1e-4]))
+            if picks[2]:
+                o["weight_decay"] = float(10 ** hrng.uniform(-4, -2))
+            if picks[3]:
+                o["amsgrad"] = True
+    nc = 0
+    for key, s_ in (sp or {}).items():
+        if _widen_sched(hrng, s_, 1.0 if (force and key == "object") else 0.6):
+            nc += 1
+            o = op.get(key)
+            if o is not None and o["type"] == "sgd" and "momentum" not in o:
+                o["lr"] *= 0.2  # plain SGD becomes momentum SGD (0.8..0.9) under the cycling: same step-size reduction as the sgd_momentum cases
+    return nd, nc
+
+
+def _groups(pt):
+    """every param-group entry (except the parameters themselves) of every optimizer, through the public `optimizers` mapping"""
+    return {str(key): [{str(k): _plain(v) for k, v in g.items() if k != "params"} for g in o.param_groups] for key, o in pt.optimizers.items()}
+
+
+def _off_defaults(pt):
+    """number of optimizers whose live param group holds a hyper-parameter different from the optimizer's constructor defaults (a scheduler moved it)"""
+    n = 0
+    for o in pt.optimizers.values():
+        g, d = o.param_groups[0], o.defaults
+        n += int(any(k in d and k != "lr" and _cdiff(_plain(g[k]), _plain(d[k])) for k in HYPER_KEYS if k in g))
+    return n
+
+
 def _constraints(rng, sc, dataset):
     c = {}
     if rng.random() < 0.75:
@@ -255,6 +338,7 @@ def _snap(pt):
         "probe": np.array(pt.probe),
         "descan": _np(pt.dset.descan_shifts),
         "positions": _np(pt.dset.scan_positions_px),
+        "groups": _groups(pt),
         "snapshots": [{"iteration": int(x["iteration"]), "obj": np.array(x["obj"]), "probe": np.array(x["probe"])} for x in pt.snapshots],
     }
     return s
@@ -334,6 +418,17 @@ def _compare(ctx, ref, got, tol, f, judge_dataset_constraints=True, first_only=N
         cb.pop("dataset", None)
     d = _cdiff(ca, cb, "constraints")
     ctx.check(d is None, "constraints_differ", lambda: "%s %s: %s" % (f["twin"], ph, d), where=((d or "").split(":")[0].split(".") + ["", ""])[1], **f)
+    if first_only is None or ph == "state":
+        # optimizer hyper-parameters: every numerics-defining param-group entry (the next step is a function of them); with free-running generators only
+        # at the split (a loss-driven scheduler may legitimately decide differently under summation-order noise afterwards)
+        ga, gb = dict(ref["groups"]), dict(got["groups"])
+        if not judge_dataset_constraints:  # (raw-data-free reload: the dataset optimizer lives in the dataset that is not saved)
+            ga.pop("dataset", None)
+            gb.pop("dataset", None)
+        gd = _cdiff({m: [{k: v for k, v in g.items() if k in HYPER_KEYS} for g in gs] for m, gs in ga.items()}, {m: [{k: v for k, v in g.items() if k in HYPER_KEYS} for g in gs] for m, gs in gb.items()}, "param_groups")
+        ctx.check(gd is None, "param_group_differs", lambda: "%s %s: optimizer %s (expected vs found)" % (f["twin"], ph, gd),
+                  where=((gd or "").split(":")[0].split(".") + ["", ""])[1].split("[")[0], entry=(gd or "").split(":")[0].split(".")[-1].split("[")[0], **f)
+        _observe_unjudged(ctx, "param_group_implementation_flags:%s" % ph, _cdiff(ga, gb) is not None and gd is None)
     ro = _relmax(ref["obj"], got["obj"])
     rp = _relmax(ref["probe"], got["probe"])
     rd = max(_relmax(ref["descan"], got["descan"]) if np.abs(ref["descan"]).max() > 0 else float(np.abs(got["descan"]).max()), _relmax(ref["positions"], got["positions"]))
@@ -463,6 +558,10 @@ def _run_twins(spec, idx, ctx):
     op = _opt_params(rng, opt_name, dataset, ds_sgd=benign)
     sp = _sched_params(rng, sched_name, list(op), 0)  # (0: schedulers never derive their rate from the length of the installing call, which may be 0)
     cons = _constraints(rng, sc, dataset)
+    hrng = ctx.rng(idx, 11)
+    hp = bool(spec.get("hp"))
+    # (the benign free-generator class stays plain SGD: its bounds were measured for that)
+    n_nd, n_cm = (0, 0) if benign else _widen_hyper(hrng, op, sp, force=hp)
     if benign and dataset and rng.random() < 0.8:
         # a dataset soft constraint that is a function of the WHOLE descan field (total variation along the scan): hostile to anything that looks at the
         # descan shifts in batch order
@@ -492,13 +591,15 @@ def _run_twins(spec, idx, ctx):
         cont[0]["optimizer_params"] = {"probe": op["probe"]}
     elif style == "new_scheduler":
         cont[0]["scheduler_params"] = {"object": _sched_one(rng, SCHEDULERS[1 + int(rng.integers(4))])}
+        if not benign:
+            _widen_sched(hrng, cont[0]["scheduler_params"]["object"], 0.5)
     elif add_ds:
         cont[0]["optimizer_params"] = {"dataset": {"type": ["adam", "sgd"][int(rng.integers(2))], "lr": float(10 ** rng.uniform(-2.5, -1.5))}}
         if rng.random() < 0.4:
             cont.append(dict(num_iters=int(rng.integers(1, 3)), batch_size=J, loss_type=loss_type))
     ds_active = dataset or add_ds  # learned scan positions / descan shifts take part in the continuation
     order = spec.get("order", "twins_first")
-    f0 = {"optimizer": opt_name, "scheduler": sched_name, "style": style, "sync": "sync" if sync else "free", "dataset_optimizer": dataset, "benign": benign}
+    f0 = {"optimizer": opt_name, "scheduler": sched_name, "style": style, "sync": "sync" if sync else "free", "dataset_optimizer": dataset, "benign": benign, "momentum_cycling": n_cm > 0, "nondefault_hyper": n_nd > 0}
     sync_seed = int(rng.integers(1 << 30))
     pre_seed = int(rng.integers(1 << 30))
 
@@ -529,6 +630,10 @@ def _run_twins(spec, idx, ctx):
     A = build()
     to_split(A, True)
     split = _snap(A)
+    off = _off_defaults(A)
+    ctx.count("cases_cyclic_momentum", int(n_cm > 0))
+    ctx.count("cases_nondefault_hyperparameters", int(n_nd > 0))
+    ctx.count("cases_split_inside_cycle_entry_off_defaults", int(off > 0))
     # up to the split the original made the same calls as the reference (plus failed saves): same state, bitwise in practice
     _compare(ctx, ref_split, split, TOL_STATE, dict(f0, twin="original_before_checkpoint", phase="state"), judge_dataset_params=ds_active)
     twins = {}
@@ -634,8 +739,8 @@ def _run_twins(spec, idx, ctx):
     stateful = opt_name != "sgd"
     finite = bool(np.isfinite(ref_final["iter_losses"]).all())
     ctx.count("cases_nonfinite_history", int(not finite))
-    ctx.nontrivial((opt_name, sched_name, k, style, dataset, errors != "none", benign), k >= 1 and m >= 2 and (stateful or lr_changed or benign) and finite)
-    ctx.observe(scene=sc.describe(), k=k, m=m, style=style, sync=sync, order=order, failed_saves=errors, iterations_between_failed_save_and_checkpoint=k_b, learn_descan=learn_descan, learn_scan_positions=learn_pos, optimizer=op, scheduler=sp, constraints=cons, loss=loss_type, dataset_optimizer=dataset, snapshots=snaps, twins=sorted(twins),
+    ctx.nontrivial((opt_name, sched_name, k, style, dataset, errors != "none", benign, n_cm > 0, n_nd > 0), k >= 1 and m >= 2 and (stateful or lr_changed or benign) and finite)
+    ctx.observe(scene=sc.describe(), k=k, m=m, style=style, sync=sync, order=order, failed_saves=errors, iterations_between_failed_save_and_checkpoint=k_b, learn_descan=learn_descan, learn_scan_positions=learn_pos, optimizer=op, scheduler=sp, constraints=cons, loss=loss_type, dataset_optimizer=dataset, snapshots=snaps, twins=sorted(twins), momentum_cycling_schedulers=n_cm, optimizers_with_nondefault_hyperparameters=n_nd, optimizers_off_defaults_at_split=off,
                 iter_losses=ref_final["iter_losses"].tolist(), iter_lrs_object=lrs.tolist(), lr_changed=lr_changed, worst_continuation_residual=worst)
 
 
@@ -664,15 +769,19 @@ def _run_history(spec, idx, ctx):
     op = _opt_params(rng, spec["opt"], dataset)
     sp = _sched_params(rng, spec["sched"], list(op), k1)
     cons = _constraints(rng, sc, dataset)
+    hrng = ctx.rng(idx, 11)
+    n_nd, n_cm = _widen_hyper(hrng, op, sp)
     stages = [dict(num_iters=k1, reset=True, optimizer_params=op, scheduler_params=sp, constraints=cons, batch_size=J, loss_type=loss_type)]
     for _ in range(3):
         stages.append(dict(num_iters=int(rng.integers(1, 4)), batch_size=J, loss_type=loss_type))
     if spec["style"] == "new_constraints":
         stages[int(rng.integers(1, 4))]["constraints"] = {"object": {"tv_weight_xy": 3e-3}, "probe": {"center_probe": bool(rng.random() < 0.5)}}
     elif spec["style"] == "new_scheduler":
-        stages[int(rng.integers(1, 4))]["scheduler_params"] = {"object": _sched_one(rng, SCHEDULERS[1 + int(rng.integers(4))])}
+        j_ = int(rng.integers(1, 4))
+        stages[j_]["scheduler_params"] = {"object": _sched_one(rng, SCHEDULERS[1 + int(rng.integers(4))])}
+        _widen_sched(hrng, stages[j_]["scheduler_params"]["object"], 0.5)
     seeds = [None] + [int(rng.integers(1 << 30)) for _ in range(3)]
-    f0 = {"optimizer": spec["opt"], "scheduler": spec["sched"], "style": "history:" + spec["style"], "sync": "sync", "dataset_optimizer": dataset}
+    f0 = {"optimizer": spec["opt"], "scheduler": spec["sched"], "style": "history:" + spec["style"], "sync": "sync", "dataset_optimizer": dataset, "momentum_cycling": n_cm > 0, "nondefault_hyper": n_nd > 0}
 
     def stage(pt, j):
         if seeds[j] is not None:
@@ -694,6 +803,7 @@ def _run_history(spec, idx, ctx):
     for j in range(3):
         As = _snap(A)
         splits.append(As["num_iters"])
+        ctx.count("cases_split_inside_cycle_entry_off_defaults", int(_off_defaults(A) > 0))
         _compare(ctx, Rs[j], As, TOL_SYNC, dict(f0, twin="original_after_save", phase="state", split=j), judge_dataset_params=dataset)
         with quiet():
             A.save(pz, mode="o", store="zip", save_raw_data=True)
@@ -720,7 +830,9 @@ def _run_history(spec, idx, ctx):
     finite = bool(np.isfinite(Rs[3]["iter_losses"]).all())
     ctx.count("cases_nonfinite_history", int(not finite))
     ctx.count("history_cases")
-    ctx.nontrivial(("history", spec["opt"], spec["sched"], k1, spec["style"], dataset), (spec["opt"] != "sgd" or lr_changed) and finite)
+    ctx.count("cases_cyclic_momentum", int(n_cm > 0))
+    ctx.count("cases_nondefault_hyperparameters", int(n_nd > 0))
+    ctx.nontrivial(("history", spec["opt"], spec["sched"], k1, spec["style"], dataset, n_cm > 0, n_nd > 0), (spec["opt"] != "sgd" or lr_changed) and finite)
     ctx.observe(scene=sc.describe(), kind="history", split_points=splits, stages=[s_["num_iters"] for s_ in stages], style=spec["style"], optimizer=op, scheduler=sp, constraints=cons, loss=loss_type,
                 dataset_optimizer=dataset, iter_losses=Rs[3]["iter_losses"].tolist(), iter_lrs_object=lrs.tolist(), lr_changed=lr_changed, worst_continuation_residual=worst)
 
@@ -742,6 +854,9 @@ def summarize(all_cases, counters, extras):
     return {
         "fallback_clone_forced": int(counters.get("fallback_forced", 0)),
         "history_cases": int(counters.get("history_cases", 0)),
+        "cases_cyclic_scheduler_cycling_momentum": int(counters.get("cases_cyclic_momentum", 0)),
+        "cases_nondefault_optimizer_hyperparameters": int(counters.get("cases_nondefault_hyperparameters", 0)),
+        "checkpoints_with_a_param_group_entry_off_the_optimizer_defaults": int(counters.get("cases_split_inside_cycle_entry_off_defaults", 0)),
         "failed_saves_caught": int(counters.get("failed_saves_caught", 0)),
         "checkpoint_overwrites_followed_by_reload": int(counters.get("history_overwrites", 0)),
         "saves": int(counters.get("hook:Ptychography.save", 0)),
